@@ -21,6 +21,10 @@ CLAIMED = {
          'Static table agreement: all 7 structural states x 256 characters, 10 literal states x 256, 8 number states x 256, string text/escape x 256 and the end-of-input switch are extracted from the resolved AST and compared with the RFC 8259 table in /verif/spec. Exhaustive over (state, character) cells per instantiation (char and wchar_t); no text is parsed.',
          'Decides the cell tables (which characters are accepted/rejected/dispatched where); does not decide produced values, the UTF-8 validator arithmetic or duplicate handling.',
          'DESIGN.md §4 C02'),
+ 'C20': ('who-may-do-what scans over the type-checked program (mutable fields, const_cast, statics handed out by non-const reference, deep-const calls through pointer members, per-call state in artifacts) with positive controls',
+         'Static absence check: behind the const API of compiled schemas, JSONPath/JMESPath expressions and basic_json there is no mutable field, no const_cast, no writable static handed out, no non-const call through a pointer member in a const method, and no per-call state stored in the artifact. This is the structural precondition of sharing an immutable artifact across threads; quantifies over all classes and functions of the artifact files and their instantiations.',
+         'Decides absence of shared writable state; does not decide interleavings or equality of per-thread results. Table exemptions (exception what_ caches; JSONPath null_value static) are listed with reasons and a checked supporting fact.',
+         'DESIGN.md §4 C20'),
 }
 NOT_YET = 'check under construction in this session; no structural rule registered yet'
 NA = {}
